@@ -602,6 +602,32 @@ pub fn verif_pad_panel_line_to_width(
     Ok((line, mode, fill_style, config.side_by_side_data[side].width))
 }
 
+/// Verification hook (C07): `pad_panel_line_to_width` in place, fill method from the config.
+#[cfg(dandavison_delta_verif)]
+#[allow(clippy::too_many_arguments)]
+pub fn verif_wrap_pad_panel_line_to_width(
+    panel_line: &mut String,
+    panel_line_is_empty: bool,
+    line_index: Option<usize>,
+    diff_style_sections: &[LineSections<'_, Style>],
+    lines_have_homolog: Option<&[bool]>,
+    state: &State,
+    panel_side: PanelSide,
+    config: &Config,
+) {
+    pad_panel_line_to_width(
+        panel_line,
+        panel_line_is_empty,
+        line_index,
+        diff_style_sections,
+        lines_have_homolog,
+        state,
+        panel_side,
+        BgShouldFill::With(config.line_fill_method),
+        config,
+    )
+}
+
 pub mod ansifill {
     use super::SideBySideData;
     use crate::config::Config;
